@@ -37,7 +37,72 @@ def E(t):
   return U.E(t)
 
 
+def _root_and_depth(e):
+  d = 0
+  while isinstance(e, ast.Subscript):
+    e = e.value
+    d += 1
+  return (e.id if isinstance(e, ast.Name) else None, d)
+
+
+def _iterates(fn, name, at):
+  """The collection (text) that the loop / comprehension variable `name` walks where `at` sits, or None."""
+  for n in ast.walk(fn):
+    gens = [(n.target, n.iter)] if isinstance(n, ast.For) else [(g.target, g.iter) for g in getattr(n, 'generators', [])]
+    for tg, it in gens:
+      if isinstance(tg, ast.Name) and tg.id == name and any(x is at for x in ast.walk(n)):
+        return it
+  return None
+
+
+def sampled_sizes(ctx, rule):
+  """Location-independent: the generation loops draw a class with np.random.choice(n, p=distribution).  n must be the length of
+  a distribution taken from the *same* element as the distribution itself: when the distributions come from walking a list of
+  sub-softmaxes (each with its own size), a size read off one fixed element of that list is wrong for all the others."""
+  for fq in ('encoder_decoder:EventSequenceEncoderDecoder.extend_event_sequences', 'encoder_decoder:EventSequenceEncoderDecoder.evaluate_log_likelihood'):
+    try:
+      fi = ctx.func(fq)
+    except Exception:      # pylint: disable=broad-except
+      continue
+    fn = fi.node
+    for c in ast.walk(fn):
+      if not (isinstance(c, ast.Call) and (dotted(c.func) or '').endswith('random.choice') and c.args):
+        continue
+      pk = next((k.value for k in c.keywords if k.arg == 'p'), None)
+      if pk is None:
+        continue
+      n = c.args[0]
+      if isinstance(n, ast.Name):
+        n = U.reaching_def(fn, n.id, c) or U.expand_locals(fn, n, at=c, depth=1)
+      cons = 'np.random.choice(n, p=d): n is the size of d'
+      if not (isinstance(n, ast.Call) and dotted(n.func) == 'len' and n.args):
+        why = 'cannot classify: the number of classes %s is not the length of a distribution' % norm_text(n)
+        ctx.ob(rule, fi, c, False, why, construct=cons, unknown=why)
+        continue
+      nroot, nd = _root_and_depth(n.args[0])
+      proot, pd = _root_and_depth(pk if isinstance(pk, ast.Subscript) else U.expand_locals(fn, pk, at=c, depth=1))
+      if nroot is None or proot is None:
+        why = 'cannot classify: %s / %s are not subscripted names' % (norm_text(n), norm_text(pk))
+        ctx.ob(rule, fi, c, False, why, construct=cons, unknown=why)
+      elif nroot == proot and nd == pd:
+        ctx.ob(rule, fi, c, True, 'size and distribution are both taken from %s at depth %d' % (proot, pd), construct=cons)
+      else:
+        it = _iterates(fn, proot, c)
+        iroot = _root_and_depth(it)[0] if it is not None else None
+        while isinstance(it, ast.Call) and it.args and iroot is None:
+          it = it.args[0]
+          iroot = _root_and_depth(it)[0]
+        if iroot is not None and nroot == iroot:
+          ctx.ob(rule, fi, c, False, 'the distribution %s is taken from each element %s of %s in turn, but the number of classes %s is read off one fixed element of %s: '
+                 'with sub-softmaxes of different sizes np.random.choice is given a size that does not match the distribution, and the generation loop fails' % (
+                     norm_text(pk), proot, norm_text(it), norm_text(n), iroot), construct=cons, definite=True)
+        else:
+          why = 'cannot classify: the number of classes %s and the distribution %s are taken from different objects' % (norm_text(n), norm_text(pk))
+          ctx.ob(rule, fi, c, False, why, construct=cons, unknown=why)
+
+
 def run(ctx):
+  sampled_sizes(ctx, 'GEN/sampled-size')
   base = ctx.cls('encoder_decoder:EventSequenceEncoderDecoder')
   subs = iface.check_interface(ctx, base, 'IFACE/encoder-decoder')
   ctx.require(len(subs) >= 8, 'only %d concrete EventSequenceEncoderDecoder subclasses found' % len(subs))
